@@ -353,15 +353,16 @@ func (s TeeingStore) Merge(other ReadOnlyFactStore) {
 
 // ListPredicates returns a list of predicates.
 func (s TeeingStore) ListPredicates() []ast.PredicateSym {
-	m := make(map[string]ast.PredicateSym)
+	// Keyed by symbol and arity: q/1 and q/2 are different predicates.
+	m := make(map[ast.PredicateSym]struct{})
 	for _, pred := range s.base.ListPredicates() {
-		m[pred.Symbol] = pred
+		m[pred] = struct{}{}
 	}
 	for _, pred := range s.Out.ListPredicates() {
-		m[pred.Symbol] = pred
+		m[pred] = struct{}{}
 	}
 	res := make([]ast.PredicateSym, 0, len(m))
-	for _, pred := range m {
+	for pred := range m {
 		res = append(res, pred)
 	}
 	return res
